@@ -162,6 +162,8 @@ def check_case(ctx, case):
 
 def gen_case(rng):
     kind = rng.choice(["zeroed", "zeroed", "unzeroed", "inclined", "dive", "dive_accel", "subsonic", "online"])
+    if rng.random() < 0.04:
+        kind = "loft"
     s = gen.shot(rng, custom=0.1, cant=False, twist=rng.random() < 0.3, wind_n=rng.choice([0, 0, 1]))
     s["look_deg"], s["rel_deg"], s["zero_deg"] = 0.0, 0.0, 0.0
     s["sight_height_in"] = rng.choice([2.0, 3.5, 0.5, -1.5, -3.0, 0.0] if kind != "online" else [0.0])
@@ -195,6 +197,14 @@ def gen_case(rng):
         s["winds"] = []
         r_ft = rng.choice([1500.0, 3000.0])
         cfg = {"cMaximumDrop": -40000.0, "cMinimumVelocity": 0.0, "cMinimumAltitude": -1000.0}
+    elif kind == "loft":        # heavy, very low-drag, lofted: subsonic on the way up, supersonic again falling through thin
+        s["table"], s["bc"] = "G1", round(rng.uniform(3.3, 3.7), 2)        # air, braked below Mach 1 again near the ground
+        s["mv_fps"] = 3000.0
+        s["rel_deg"] = round(rng.uniform(68, 72), 1)
+        s["atmo"] = {"kind": "icao", "alt_ft": 0.0}
+        s["winds"] = []
+        r_ft = 60000.0
+        cfg = {"max_calc_step_size_feet": 2.0, "cMaximumDrop": -100.0}
     elif kind == "subsonic":
         s["mv_fps"] = round(rng.uniform(600, 1180), 0)
         zero_ft = rng.choice([75.0, 150.0, 300.0])
@@ -203,7 +213,7 @@ def gen_case(rng):
         s["rel_deg"] = rng.choice([0.1, -0.1, 1.0, 0.0])
     if s["mv_fps"] < 900:
         r_ft = min(r_ft, 1500.0)
-    step = rng.choice([10.0, 30.0, 100.0, 300.0])
+    step = rng.choice([10.0, 30.0, 100.0, 300.0]) if kind != "loft" else 3000.0
     if r_ft / step > 400:
         step = r_ft / 400
     case = {"kind": kind, "shot": s, "zero_ft": zero_ft, "range_ft": r_ft, "step_ft": step}
